@@ -17,6 +17,7 @@ package dkv
 //@ func DB.Put
 //@   property C07 C08
 //@   nowrap
+//@   atcall Put: arg2 == db.seqNum + 1
 //@   requires db.wal != nil && db.mtables != nil && db.wal.activeBuffer != nil && db.wal.latestSeqNum <= db.seqNum && !db.wal.sealedFlag
 //@   modifies db.seqNum, db.live, wal.Writer.*, wal.bufferSegment.*, memtable.List.*, memtable.MemTable.*, ziptree.ZipTree.*, ziptree.Node.*
 //@   ensures db.seqNum == old(db.seqNum) + 1
@@ -26,6 +27,7 @@ package dkv
 //@ func DB.Delete
 //@   property C07 C08
 //@   nowrap
+//@   atcall Delete: arg1 == db.seqNum + 1
 //@   requires db.wal != nil && db.mtables != nil && db.wal.activeBuffer != nil && db.wal.latestSeqNum <= db.seqNum && !db.wal.sealedFlag
 //@   modifies db.seqNum, db.live, wal.Writer.*, wal.bufferSegment.*, memtable.List.*, memtable.MemTable.*, ziptree.ZipTree.*, ziptree.Node.*
 //@   ensures db.seqNum == old(db.seqNum) + 1
